@@ -35,6 +35,24 @@ CLAIMED = {
     ref="DESIGN.md §4 C08"),
 }
 
+CLAIMED.update({
+  "C17": dict(
+    text="Static guard and shape analysis of package object over SSA: every float-to-integer conversion in the module is shown to be dominated by lower/upper range tests (and the integrality test) on the converted value using branch facts; package object is exhaustively scanned for may-panic constructs (non-comma-ok assertions, indexing, slicing, map writes, panics); GetString's value return is shown to be the non-empty result of ansi.Scrub of the checked getPrimitive[string] result, the text accessors to parse only GetString results; every instantiation of getPrimitive is shown to report 'absent' exactly on the missing/null edges, 'wrong type' on the failed assertion and the asserted value on success, no other error to wrap the 'absent' sentinel, and every error to come with zero values; list promotion is shape-checked. These hold for every JSON value because they are facts about all paths of ~140 lines of accessor code.",
+    note="Trusted: encoding/json's decoding into float64/[]any/map[string]any; time.Parse, url.Parse and the media-type regexp. Not decided: that the converted integer equals the JSON number's value (value semantics of the conversion inside the guarded range).",
+    technique="static guard-dominates-use (branch facts), exhaustive may-panic construct scan, sentinel/table agreement over SSA",
+    ref="DESIGN.md §4 C17"),
+  "C19": dict(
+    text="Static dominance and table-agreement rules: config.parse is shown to return a configuration only for an empty location, a missing file, or a decode with nil error and no undecoded keys, with defaults stored first into the same object, and the package initialiser to exit non-zero after a diagnostic on every error; every field of Style.Colors (enumerated from the type) is shown to be replaced by hexToAnsi of itself with the error checked, hexToAnsi's slices to be guarded by len == 7 and its parses to be checked base 16; every read of a configuration value anywhere in the module is matched against a consumer table (exhaustive over reads), and for each consumer assumption a rejecting comparison inside package config is found and evaluated on boundary values. Covers every TOML file because acceptance is a property of the code paths, not of sampled files.",
+    note="Trusted: BurntSushi/toml's decoding and Undecoded(); ParseUint of two hex digits is 0..255. Not decided: TOML parsing itself.",
+    technique="static dominance (strict decoding), writer/reader table agreement, consumer-assumption table with boundary evaluation of validating comparisons",
+    ref="DESIGN.md §4 C19"),
+  "C20": dict(
+    text="Static shape, guard and identity-flow rules on ui.openExternally and its producers: the module is scanned for process-spawning call sites (exactly exec.Command + run in the hook; program not a constant); argv is shown to be element 0 / tail of a slice freshly made with the configured hook's length and filled by one copy from config.Parsed.Media.Hook; every other store into it is shown to be at an index known non-zero, on the equality edge of that very element against a constant placeholder, storing by SSA identity the link parameter or the matching field of the media type; the handled placeholders are compared with readme.md; Stdin is shown to be set only when the %url flag is false and to wrap the link itself; every (link, type, present) producer (Post/Actor/Activity/Failure.SelectLink, Media, Banner, ProfilePic, Link.Select*) is shown to return a non-nil type whenever present is true (value+Err pair guards and producer soundness). All hook configurations and links are covered because substitution is shown to be structurally element-wise and identity-preserving.",
+    note="Trusted: os/exec passes argv verbatim to execve. Not decided: what the OS or the hook program does with the arguments.",
+    technique="static shape matching on SSA with branch facts (exact-match substitution), identity-only value flow, non-nil producer analysis",
+    ref="DESIGN.md §4 C20"),
+})
+
 NOT_APPLICABLE = {
   "C13": "content preservation / line-length bounds of Wrap, DumbWrap, Pad, Indent, Snip are relations between input and output string values for all strings and widths; no sound static argument over the code's shape decides them (DESIGN.md §5)",
   "C14": "per-character attribute sets after arbitrary nesting and layout are string values; the structural facts available (single SGR emitter) are not necessary conditions of this property (DESIGN.md §5)",
